@@ -47,7 +47,12 @@ type Case struct {
 	Other []int `json:"other,omitempty"` // request indices after which the peer also sends an unrelated onStatus call
 	// ChunkSize != 0: the writer first announces and uses this outgoing chunk size
 	ChunkSize uint32 `json:"chunk_size,omitempty"`
+	// ErrLast: the transport takes every byte of the LAST request and still reports an error for that
+	// write (n == len(p), err != nil): the request is with the peer, who answers it
+	ErrLast bool `json:"err_last,omitempty"`
 }
+
+var errAfterFullWrite = fmt.Errorf("transport error reported after all bytes were taken")
 
 type result struct {
 	tid  float64
@@ -175,6 +180,9 @@ func (w *wr) Write(p []byte) (int, error) {
 	case "free":
 		h.peerCh <- h.cur
 	}
+	if h.c.ErrLast && h.cur == len(h.c.Reqs)-1 {
+		return len(p), errAfterFullWrite
+	}
 	return len(p), nil
 }
 
@@ -279,7 +287,7 @@ func runCase(c Case) (stInside, stOutOfOrder bool, err error) {
 			}
 			pkt = k
 		}
-		if e := a.WritePacket(pkt, 0); e != nil {
+		if e := a.WritePacket(pkt, 0); e != nil && !(c.ErrLast && i == len(c.Reqs)-1) {
 			err = fmt.Errorf("request %d: WritePacket: %v", i, e)
 			break
 		}
@@ -454,6 +462,7 @@ func TestSchedules(t *testing.T) {
 			}
 			c.Reqs = append(c.Reqs, r)
 		}
+		c.ErrLast = rapid.IntRange(0, 5).Draw(t, "errlast") == 0
 		if rapid.IntRange(0, 2).Draw(t, "scs") == 0 {
 			c.ChunkSize = rapid.SampledFrom([]uint32{1, 127, 4096, 8000, 8300, 60000, 1 << 24}).Draw(t, "chunk")
 		}
